@@ -157,8 +157,12 @@ def run(ctx):
         # (arguments and working directories that differ then give different file sets)
         rich = [t for t in trees if any(n in ("a.go", "b.go") for n in t["top"]) and
                 any(any(c in ("a.go", "b.go") for c in t["kids"].get(d, [])) for d in t["top"] if d in DIRS)] or trees
+        # ... and some use trees in which a symbolic link is followed (in directory order) by a directory that holds a
+        # Go file: what the walk does with the link must not decide what happens to the entries after it
+        linked = [t for t in trees if any(n in ("l.go", "ld") for n in t["top"]) and
+                  any(d > "ld" and any(c in ("a.go", "b.go") for c in t["kids"].get(d, [])) for d in t["top"] if d == "sub")] or rich
         for k in range(per):
-            t = ctx.rng.choice(rich if k % 2 else trees)
+            t = ctx.rng.choice(linked if k % 4 == 3 else rich if k % 2 else trees)
             n = ctx.rng.choice([1, 2, 2, 3])
             args = [ctx.rng.choice(t["args"]) for _ in range(n)]
             if ctx.rng.random() < 0.3:
